@@ -28,3 +28,10 @@ func TestC01Connect(t *testing.T) {
 	}
 	vtx.Explore(t, p, r)
 }
+
+// TestC01BFS: merged breadth-first search to depth 7 (thorough tier only).
+func TestC01BFS(t *testing.T) {
+	r := rep.New("C01")
+	defer r.Write()
+	vtx.ExploreBFS(t, prof.Relay("c01-bfs", map[string]bool{"leak-c2p": true, "policy": true}), r, 7)
+}
